@@ -8,8 +8,8 @@
   evaluated from scratch on the last `n` values of `replicate n v ++ xs.take (i+1)`.
 
   Proved here: SMA, WMA, windowed and cumulative Integral, Momentum, Derivative,
-  RateOfChange, Past, StDev (the variance under its square root), LinearVolatility.  The remaining C02 methods (SWMA, TRIMA,
-  HMA, LinReg, Conv, VWMA, MeanAbsDev, MedianAbsDev, CCI, windowed ADI) are at present covered by the
+  RateOfChange, Past, StDev (the variance under its square root), LinearVolatility, MeanAbsDev, CCI.  The remaining C02 methods (SWMA, TRIMA,
+  HMA, LinReg, Conv, VWMA, MedianAbsDev, windowed ADI) are at present covered by the
   correspondence run only (Rust vs exact model *and* vs from-scratch spec on every step); see
   the evidence file and DESIGN §5.
 -/
@@ -18,6 +18,7 @@ import YataProofs.Numeric.WMA
 import YataProofs.Numeric.Simple
 import YataProofs.Numeric.StDev
 import YataProofs.Numeric.LinVol
+import YataProofs.Numeric.MeanAbsDev
 import Mathlib.Tactic.NormNum
 namespace Yata.C02
 open Yata
@@ -79,6 +80,20 @@ theorem C02_linear_volatility {P n : Nat} (v : K) (hn0 : 0 < n) (hn : n ≤ P - 
       ∀ i (hi : i < outs.length), outs[i] = Spec.linearVolatility n v (xs.take (i + 1)) ∧ 0 ≤ outs[i] :=
   LinearVolatility.spec v hn0 hn xs
 
+/-- MeanAbsDev: mean absolute deviation of the last `n` values around their mean, never negative -/
+theorem C02_mean_abs_dev {P n : Nat} (v : K) (hn0 : 0 < n) (hn : n ≤ P - 1) (xs : List K) :
+    ∃ s0 outs s', MeanAbsDev.new P n v = .ok s0 ∧ runM MeanAbsDev.next s0 xs = .ok (outs, s') ∧
+      outs.length = xs.length ∧
+      ∀ i (hi : i < outs.length), outs[i] = Spec.meanAbsDev n v (xs.take (i + 1)) ∧ 0 ≤ outs[i] :=
+  MeanAbsDev.spec v hn0 hn xs
+
+/-- CCI: `(value − mean)/mean-absolute-deviation`, and `0` exactly when the deviation is not positive (no
+    absolute threshold: the method is scale-invariant) -/
+theorem C02_cci {P n : Nat} (v : K) (hn0 : 0 < n) (hn : n ≤ P - 1) (xs : List K) :
+    ∃ s0 outs s', CCI.new P n v = .ok s0 ∧ runM CCI.next s0 xs = .ok (outs, s') ∧
+      outs.length = xs.length ∧ ∀ i (hi : i < outs.length), outs[i] = Spec.cci n v (xs.take (i + 1)) :=
+  CCI.spec v hn0 hn xs
+
 /-- length 0 is rejected by every constructor that documents it (Integral accepts it: cumulative) -/
 theorem C02_zero_length_rejected {P : Nat} (v : K) :
     (∃ e, SMA.new P 0 v = .err e) ∧ (∃ e, WMA.new P 0 v = .err e) ∧ (∃ e, Momentum.new P 0 v = .err e) ∧
@@ -106,3 +121,5 @@ end Yata.C02
 #print axioms Yata.C02.C02_zero_length_rejected
 #print axioms Yata.C02.C02_stdev
 #print axioms Yata.C02.C02_linear_volatility
+#print axioms Yata.C02.C02_mean_abs_dev
+#print axioms Yata.C02.C02_cci
